@@ -19,7 +19,7 @@ import (
 func newScenarioGen(r *vh.Rand, nv int, et uint64, cq, pv bool) *gen {
 	c := &raftsim.Cluster{Nodes: map[uint64]*raftsim.Node{}}
 	c.HT, c.ET, c.CQ, c.PV = 1, et, cq, pv
-	g := &gen{r: r, c: c, started: map[uint64]byte{}, pending: map[uint64]byte{}, blocked: map[uint64]bool{}, nextKey: 500}
+	g := &gen{r: r, c: c, started: map[uint64]byte{}, pending: map[uint64]byte{}, blocked: map[uint64]bool{}, quiesced: map[uint64]int{}, nextKey: 500}
 	g.Driver = &raftsim.Driver{C: c}
 	g.Record = func(op string, rt uint64) { g.ops = append(g.ops, fmt.Sprintf("%s @%d", op, rt)) }
 	var init []string
@@ -339,7 +339,222 @@ func scenarioTransferWithUnappliedChange(r *vh.Rand) (string, []string) {
 	return g.c.Header(), g.ops
 }
 
+// scenario 5: replica 1 serves a read as leader of term T, is deposed, receives the entries of
+// the interim leader only through Replicate messages sent before they were committed (its
+// commit index stays where it was), is elected again and is asked for a read before the
+// no-op of its new term commits. The interim leader's write is acknowledged by then.
+func scenarioReelectedLeaderRead(r *vh.Rand) (string, []string) {
+	g := newScenarioGen(r, 3, uint64(5+r.Intn(3)), false, false)
+	if !g.elect(1, nil) {
+		return g.c.Header(), g.ops
+	}
+	for i := 0; i <= r.Intn(2); i++ {
+		g.propose(1)
+		g.settle(nil)
+	}
+	for _, k := range g.liveIDs() {
+		g.update(k)
+		g.apply(k, 100)
+	}
+	g.settle(nil)
+	g.nextKey++
+	g.do(fmt.Sprintf("R 1 %d 1", g.nextKey))
+	g.update(1)
+	g.settle(nil)
+	g.update(1)
+	// 2 campaigns and wins with 3's vote
+	t0 := g.term(1)
+	g.tickUntil(2, func() bool { return g.role(2) == 1 && g.term(2) == t0+1 }, 80)
+	votes := func(a, b uint64) func(m pb.Message) bool {
+		return func(m pb.Message) bool {
+			return (m.Type == pb.RequestVote || m.Type == pb.RequestVoteResp) && only(a, b)(m)
+		}
+	}
+	g.settle(votes(2, 3))
+	if g.Stopped || g.role(2) != 3 {
+		return g.c.Header(), g.ops
+	}
+	// its first Replicate messages (no-op only) are lost
+	g.dropPool(func(m pb.Message) bool { return m.From == 2 || m.To == 2 })
+	g.propose(2)
+	g.dropPool(func(m pb.Message) bool { return m.To == 3 })
+	// a heartbeat round with 1 resumes replication to 1: one Replicate with the no-op and
+	// the proposal, nothing committed yet
+	hb := func() bool {
+		for _, m := range g.Pool {
+			if m.Type == pb.Heartbeat && m.To == 1 {
+				return true
+			}
+		}
+		return false
+	}
+	g.tickUntil(2, hb, 10)
+	g.dropPool(func(m pb.Message) bool { return m.To == 3 })
+	g.settle(func(m pb.Message) bool { return m.Type == pb.Heartbeat && m.To == 1 })
+	g.settle(func(m pb.Message) bool { return m.Type == pb.HeartbeatResp && m.From == 1 })
+	g.settle(func(m pb.Message) bool { return m.Type == pb.Replicate && m.To == 1 })
+	g.settle(func(m pb.Message) bool { return m.Type == pb.ReplicateResp && m.From == 1 })
+	if g.Stopped {
+		return g.c.Header(), g.ops
+	}
+	g.update(2)
+	g.apply(2, 100)
+	// 1 never hears of the commit
+	g.dropPool(func(m pb.Message) bool { return m.From == 2 || m.To == 2 })
+	// 1 campaigns again and wins with 3's vote; its new no-op stays uncommitted
+	t1 := g.term(1)
+	g.tickUntil(1, func() bool { return g.role(1) == 1 && g.term(1) == t1+1 }, 80)
+	g.settle(votes(1, 3))
+	if g.Stopped || g.role(1) != 3 {
+		return g.c.Header(), g.ops
+	}
+	g.dropPool(func(m pb.Message) bool { return m.Type == pb.Replicate })
+	g.nextKey++
+	g.do(fmt.Sprintf("R 1 %d 1", g.nextKey))
+	g.update(1)
+	g.settle(func(m pb.Message) bool {
+		return (m.Type == pb.Heartbeat || m.Type == pb.HeartbeatResp) && only(1, 3)(m)
+	})
+	g.update(1)
+	return g.c.Header(), g.ops
+}
+
+// settleHold is settle, but the replicas in hold take their updates without applying anything.
+func (g *gen) settleHold(keep func(m pb.Message) bool, hold map[uint64]bool) {
+	for n := 0; n < 400 && !g.Stopped; n++ {
+		idx := -1
+		for i, m := range g.Pool {
+			if keep == nil || keep(m) {
+				idx = i
+				break
+			}
+		}
+		if idx < 0 {
+			return
+		}
+		m := g.Pool[idx]
+		g.Deliver(idx, false, false, nil)
+		if g.Stopped {
+			return
+		}
+		if nd, ok := g.c.Nodes[m.To]; ok {
+			if hold[m.To] {
+				g.do(fmt.Sprintf("U %d 1 %d", m.To, nd.Applied))
+			} else {
+				g.update(m.To)
+				if !g.Stopped {
+					g.apply(m.To, 100)
+				}
+			}
+		}
+	}
+}
+
+// scenario 6: two full replicas and a witness. The leader commits an entry with the
+// witness's acknowledgement only and is then cut off before the witness learns the new
+// commit index; the other full replica, which lacks the entry, campaigns.
+func scenarioWitnessGuardsCommitted(r *vh.Rand) (string, []string) {
+	g := newScenarioGen(r, 2, uint64(5+r.Intn(3)), false, false)
+	if !g.elect(1, nil) {
+		return g.c.Header(), g.ops
+	}
+	g.nextKey++
+	g.cc(1, uint64(pb.AddWitness), 3)
+	g.update(1)
+	g.settle(nil)
+	for _, k := range g.liveIDs() {
+		g.update(k)
+		g.apply(k, 100)
+	}
+	g.settle(nil)
+	g.do("START 3 W . -")
+	for i := 0; i < 4 && !g.Stopped; i++ {
+		g.do("T 1")
+		g.update(1)
+		g.settle(nil)
+		for _, k := range g.liveIDs() {
+			g.update(k)
+			g.apply(k, 100)
+		}
+	}
+	g.settle(nil)
+	// replica 2 is cut off; the next entries reach the witness only
+	pair := only(1, 3)
+	for i := 0; i <= r.Intn(2); i++ {
+		g.propose(1)
+	}
+	g.dropPool(func(m pb.Message) bool { return m.To == 2 || m.From == 2 })
+	g.settle(func(m pb.Message) bool { return pair(m) && m.Type == pb.Replicate })
+	g.settle(func(m pb.Message) bool { return pair(m) && m.Type == pb.ReplicateResp })
+	g.update(1)
+	g.apply(1, 100) // committed by {1, witness} and applied on the leader: acknowledged
+	// the witness never learns the new commit index; the leader is gone
+	g.dropPool(func(m pb.Message) bool { return m.From == 1 || m.To == 1 })
+	t0 := g.term(2)
+	g.tickUntil(2, func() bool { return g.role(2) == 1 && g.term(2) > t0 }, 80)
+	side := only(2, 3)
+	g.settle(side)
+	for i := 0; i < 3 && !g.Stopped; i++ {
+		g.do("T 2")
+		g.update(2)
+		g.settle(side)
+	}
+	return g.c.Header(), g.ops
+}
+
+// scenario 7: a non-voting replica is promoted; everybody but the promoted replica itself has
+// applied the promotion when two replicas campaign for the same term and both ask it for
+// its vote, each needing it for a quorum.
+func scenarioPromotedNonVotingVotes(r *vh.Rand) (string, []string) {
+	g := newScenarioGen(r, 4, uint64(5+r.Intn(3)), false, false)
+	if !g.elect(1, nil) {
+		return g.c.Header(), g.ops
+	}
+	g.addNonVoting(1, 5)
+	g.propose(1)
+	g.settle(nil)
+	hold := map[uint64]bool{5: true}
+	g.nextKey++
+	g.cc(1, uint64(pb.AddNode), 5) // promotion
+	g.update(1)
+	g.settleHold(nil, hold)
+	for i := 0; i < 3 && !g.Stopped; i++ {
+		g.do("T 1")
+		g.update(1)
+		g.settleHold(nil, hold)
+	}
+	for _, k := range []uint64{1, 2, 3, 4} {
+		g.update(k)
+		g.apply(k, 100)
+	}
+	g.settleHold(nil, hold)
+	// 2 and 3 time out for the same term
+	t0 := g.term(1)
+	a, b := uint64(2), uint64(3)
+	if r.Bool() {
+		a, b = b, a
+	}
+	g.tickUntil(a, func() bool { return g.role(a) == 1 && g.term(a) == t0+1 }, 80)
+	g.tickUntil(b, func() bool { return g.role(b) == 1 && g.term(b) == t0+1 }, 80)
+	if g.Stopped || g.role(a) != 1 || g.role(b) != 1 {
+		return g.c.Header(), g.ops
+	}
+	rv := func(from, to uint64) func(m pb.Message) bool {
+		return func(m pb.Message) bool { return m.Type == pb.RequestVote && m.From == from && m.To == to }
+	}
+	// a is heard by 1 and 5, b by 4 and 5
+	g.settleHold(rv(a, 1), hold)
+	g.settleHold(rv(b, 4), hold)
+	g.settleHold(rv(a, 5), hold)
+	g.settleHold(rv(b, 5), hold)
+	g.dropPool(func(m pb.Message) bool { return m.Type == pb.RequestVote })
+	g.settleHold(func(m pb.Message) bool { return m.Type == pb.RequestVoteResp }, hold)
+	g.settleHold(nil, hold)
+	return g.c.Header(), g.ops
+}
+
 var scenarios = []func(r *vh.Rand) (string, []string){
 	scenarioTransferWithUnappliedChange,
 	scenarioVoteRace, scenarioTransferRemove, scenarioDeposedLeaderRead, scenarioDelayedConfirmation,
+	scenarioReelectedLeaderRead, scenarioWitnessGuardsCommitted, scenarioPromotedNonVotingVotes,
 }
